@@ -18,7 +18,7 @@ ASSUMPTIONS = ["all children exit 0 (failures are C03's subject)", "--jobs 1..2,
                "git disabled"]
 
 
-def make(n, kinds, orders="rev", jobs_hi=2, atleast=False):
+def make(n, kinds, orders="rev", jobs_hi=2, atleast=False, batch=False):
     def fn(g):
         specs = graphs.sym_graph(g, n, kinds, orders=orders)
         root = n - 1
@@ -44,11 +44,11 @@ def make(n, kinds, orders="rev", jobs_hi=2, atleast=False):
                 vcommit[j] = g.choose("vc%d" % j, 2)
                 proj.add_version(specs[j].ident, 100 + j, commit=c05.H(vcommit[j]))
         else:
-            sched = graphs.SymSched(g, all_ok=True, on_spawn=graphs.output_writer)
+            sched = graphs.SymSched(g, all_ok=True, on_spawn=graphs.output_writer, batch=batch)
             for j in has_version:
                 proj.add_version(specs[j].ident, 100 + j)
         rows_before = proj.index_rows()
-        res = graphs.run_graph(g, specs, root, again=again, jobs=jobs, sched=sched, proj=proj, at_least=at_least)
+        res = graphs.run_graph(g, specs, root, again=again, jobs=jobs, sched=sched, proj=proj, at_least=at_least, adversarial=batch)
         try:
             graphs.crash_check(g, res, specs)
             D = graphs.describe(specs) + ["again=%s at_least=%s has_version=%s made_at=%s" % (again, at_least and at_least[:2], sorted(has_version), vcommit)]
@@ -158,6 +158,9 @@ def spaces(tier):
                 "N<=3, kinds {experiment, command}, git history c0 <- c1 = HEAD through the fake git, each recorded version made at "
                 "c0 or c1, flags {default, --again, --at-least c0, --at-least c1}", depth=7,
                 goals=["--at-least forces a cached experiment to re-run"])]
+    sp.append(Space("n4-batched-exits-j3", make(4, ("run_command",), jobs_hi=3, batch=True),
+                    "4 run_command tasks, every edge set, par bits, --jobs 3 fixed, one SIGCHLD may stand for two or three exits", depth=9,
+                    preset={"jobs": 2, "again": True}))
     sp.append(Space("scale-wide-133", scale_fn, "133 tasks (a group over 131 commands, one of them depending on a shared task that the root "
                     "lists again 128 tasks later); shared task kind, listing position, --again, jobs {1,3}", depth=4,
                     goals=["graph of more than 128 tasks"]))
